@@ -451,6 +451,7 @@ func (mux *abciMux) PrepareProposal(req types.RequestPrepareProposal) types.Resp
 	p.header = &header
 	p.txs = txs
 	p.misbehavior = req.Misbehavior
+	p.lastCommit = &lastCommit
 
 	return types.ResponsePrepareProposal{Txs: txs}
 }
@@ -470,7 +471,7 @@ func (mux *abciMux) ProcessProposal(req types.RequestProcessProposal) (resp type
 	}
 
 	// If the proposal has already been executed (e.g. because we are the proposer), accept.
-	if mux.state.proposal != nil && !mux.state.proposal.needsExecution() && mux.state.proposal.isEqual(&header, req.Txs, req.Misbehavior) {
+	if mux.state.proposal != nil && !mux.state.proposal.needsExecution() && mux.state.proposal.isEqual(&header, req.Txs, &req.ProposedLastCommit, req.Misbehavior) {
 		mux.logger.Debug("reusing own executed proposal")
 		mux.state.proposal.hash = req.Hash // Was not known in prepare phase.
 
